@@ -389,3 +389,102 @@ func (v *Verifier) immutableFields(cfg PropConfig, sc StructuralCheck) []StructR
 	}
 	return out
 }
+
+// eventLoggedOnce (C01, "every event a run records names a step of that run"): run.LogEvent(step, e) stamps the step
+// on the event object itself, so an event object may be logged to one run only. For every call of LogEvent on a run
+// (static or through flows.Run) the event value must be made for that call: defined inside every loop the call is in
+// (a value made before a loop and logged inside it is one object shared by all iterations), and not handed to a
+// second LogEvent call of the same function. A parameter or captured variable (the logEvent callback pattern) moves
+// the question to the callers, which create the event - not followed further (assumption).
+func (v *Verifier) eventLoggedOnce(cfg PropConfig, sc StructuralCheck) []StructResult {
+	var a struct {
+		Method string `json:"method"` // LogEvent
+		Arg    int    `json:"arg"`    // index of the event among the call's arguments (receiver = 0)
+	}
+	json.Unmarshal(sc.Args, &a)
+	var out []StructResult
+	n := 0
+	strip := func(x ssa.Value) ssa.Value {
+		for {
+			switch y := x.(type) {
+			case *ssa.MakeInterface:
+				x = y.X
+			case *ssa.ChangeInterface:
+				x = y.X
+			case *ssa.ChangeType:
+				x = y.X
+			default:
+				return x
+			}
+		}
+	}
+	for _, fn := range v.moduleFunctions(false) {
+		if fn.Synthetic != "" {
+			continue
+		}
+		var loops map[*ssa.BasicBlock]*loopInfo
+		seenVal := map[ssa.Value]int{}
+		k := 0
+		for _, b := range fn.Blocks {
+			for _, in := range b.Instrs {
+				ci, ok := in.(ssa.CallInstruction)
+				if !ok {
+					continue
+				}
+				cc := ci.Common()
+				var args []ssa.Value
+				switch {
+				case cc.IsInvoke() && cc.Method.Name() == a.Method:
+					if named, ok := types.Unalias(cc.Value.Type()).(*types.Named); !ok || named.Obj().Name() != "Run" {
+						continue
+					}
+					args = append([]ssa.Value{cc.Value}, cc.Args...)
+				case cc.StaticCallee() != nil && cc.StaticCallee().Name() == a.Method && cc.StaticCallee().Signature.Recv() != nil && strings.HasSuffix(cc.StaticCallee().Signature.Recv().Type().String(), "runs.run"):
+					args = cc.Args
+				default:
+					continue
+				}
+				if a.Arg >= len(args) {
+					continue
+				}
+				n++
+				k++
+				ev := strip(args[a.Arg])
+				name := fmt.Sprintf("%s/structural/event_logged_once[%s#%d]", cfg.ID, shortKey(fn), k)
+				if shortKey(fn) == "" && fn.Parent() != nil {
+					name = fmt.Sprintf("%s/structural/event_logged_once[%s$closure#%d]", cfg.ID, shortKey(fn.Parent()), k)
+				}
+				text := fmt.Sprintf("the event logged to a run at %s is an object made for that call", v.prog.Fset.Position(in.Pos()))
+				switch d := ev.(type) {
+				case *ssa.Parameter, *ssa.FreeVar:
+					seenVal[ev]++
+					okV := seenVal[ev] == 1
+					out = append(out, StructResult{Name: name, Kind: "ownership", Text: text, OK: okV,
+						Detail: map[bool]string{true: "parameter / captured variable " + d.Name() + ": one LogEvent per call of this function (callers create the event)", false: "the same parameter is logged to a run twice"}[okV]})
+				case ssa.Instruction:
+					if loops == nil {
+						loops = computeLoops(fn)
+					}
+					var bad []string
+					for _, l := range loops {
+						if l.blocks[b] && !l.blocks[d.Block()] {
+							bad = append(bad, fmt.Sprintf("made at %s, before the loop at %s in which it is logged: one object for all iterations", v.prog.Fset.Position(d.Pos()), v.prog.Fset.Position(l.header.Instrs[0].Pos())))
+						}
+					}
+					seenVal[ev]++
+					if seenVal[ev] > 1 {
+						bad = append(bad, "the same event value is handed to a second LogEvent call")
+					}
+					sort.Strings(bad)
+					out = append(out, StructResult{Name: name, Kind: "ownership", Text: text, OK: len(bad) == 0, Detail: strings.Join(uniq(bad), "; ")})
+				default:
+					out = append(out, StructResult{Name: name, Kind: "ownership", Text: text, OK: false, Detail: fmt.Sprintf("event value of unexpected form %T", ev)})
+				}
+			}
+		}
+	}
+	if n == 0 {
+		out = append(out, StructResult{Name: fmt.Sprintf("%s/structural/event_logged_once[none]", cfg.ID), Kind: "ownership", Text: "calls of LogEvent exist", OK: false, Detail: "no call found (renamed?)"})
+	}
+	return out
+}
